@@ -1,4 +1,6 @@
 """Registry: property id -> engine, tiers, task lists."""
+import os
+
 from . import driver
 from .common import EXIT_HARNESS
 
@@ -37,17 +39,187 @@ def _engine_tasks(what, args):
     """(engine module, task list) of a property check, shared by the checks and the digest self-test."""
     if what == "C12":
         from . import schedsim as eng
-        n = args.runs or (2400 if args.tier == "quick" else 60000)
-        return eng, driver.seeds_for(args.seed, "C12", n)
+        n = args.runs or (1200 if args.tier == "quick" else 30000)
+        tasks = driver.seeds_for(args.seed, "C12", n)
+        if args.tier == "quick" and not args.runs and not getattr(args, "no_sweep", False) and args.what != "digests":
+            tasks += site_sweep_tasks(eng, args)
+        share = float(os.environ.get("VERIF_INSTR_SHARE", "0.3" if args.tier == "thorough" else "0"))
+        if share > 0:
+            tasks = [{**t, "cfg": {"instr_share": share}} for t in tasks]
+        if args.tier == "thorough" and not getattr(args, "no_sweep", False) and args.what != "digests":
+            tasks += preemption_sweep_tasks(eng, args)
+        return eng, tasks
     if what in ("C11", "C20"):
         from . import histsim as eng
         n = args.runs or ({"C11": 4000, "C20": 5000}[what] if args.tier == "quick" else {"C11": 150000, "C20": 200000}[what])
-        return eng, [{**t, "cfg": {"profile": what.lower()}} for t in driver.seeds_for(args.seed, what, n)]
+        tasks = [{**t, "cfg": {"profile": what.lower()}} for t in driver.seeds_for(args.seed, what, n)]
+        if what == "C11" and not getattr(args, "no_sweep", False) and args.what != "digests":
+            tasks += crashpoint_sweep_tasks(eng, args)
+        return eng, tasks
     if what == "C09":
         from . import bussim as eng
         n = args.runs or (20000 if args.tier == "quick" else 1000000)
         return eng, driver.seeds_for(args.seed, "C09", n)
     raise ValueError(what)
+
+
+SWEEP_TYPES_QUICK = ["Node", "Tree", "RA", "LinkedInt", "Holder", "Outer1"]
+SWEEP_TYPES_THOROUGH = ["Node", "ListNode", "Tree", "RA", "RB", "LinkedInt", "LinkedStr", "Outer1", "Outer2", "Holder", "OptNode",
+                        "DictStrNode", "GInt", "GListInt", "PairIntStr", "UM1M3", "ULM1LM2", "UListIntStr", "OptLit01", "GLit01",
+                        "ListM1", "DictStrM1", "NT", "TD", "AT", "WithDefaults", "SnakeCase"]
+SIBLING = {"Outer1": "Outer2", "Outer2": "Outer1", "Holder": "Node", "Node": "Holder", "ListNode": "Node", "RA": "RB", "RB": "RA",
+           "LinkedInt": "LinkedStr", "LinkedStr": "LinkedInt", "GInt": "GListInt", "OptNode": "Node", "DictStrNode": "ListNode",
+           "UM1M3": "ListM1", "ListM1": "DictStrM1", "Tree": "Tree"}
+
+
+def crashpoint_sweep_tasks(eng, args):
+    """Crash-point sweep (DESIGN 5): for each base creation call, count its N function entries on a fresh
+    retort in a pristine image, then for k = 1..N (thorough: all; quick: a seeded sample) run
+    [creation interrupted at entry k; the same request again; a call with valid nested data; a sibling
+    type that shares inner requests]. Every later answer must equal the pristine reference."""
+    import random
+
+    from . import pools
+    from .procpool import fork_call
+    rng = random.Random(args.seed ^ 0xC11)
+    thorough = args.tier == "thorough"
+    types = SWEEP_TYPES_THOROUGH if thorough else SWEEP_TYPES_QUICK
+    per_type = None if thorough else 250
+    tasks = []
+    variants = [("get_loader", "base"), ("get_dumper", "base"), ("get_loader", "recursion")]
+    for ti, t in enumerate(types):
+        for vi, (kind, exc) in enumerate(variants):
+            if not thorough and (ti + vi) % 3 != 0 and kind != "get_loader":
+                continue
+            opts = {"strict_coercion": (ti + vi) % 2 == 0, "debug_trail": ["ALL", "FIRST", "DISABLE"][(ti + vi) % 3]}
+            recipe = "chain_node_children" if t in ("Outer1", "Outer2") else "plain"
+            handle = {"base": "Retort", "recipe": recipe, "opts": opts}
+            first = {"op": kind, "h": 0, "t": t}
+            d0 = eng.ops.static_ref_descs([handle], [first])[0]
+            try:
+                n = fork_call(eng.compute_ref, ({"op": "entries", "of": d0},), 120.0, "sweep-count")
+            except Exception:  # noqa: BLE001
+                continue
+            sib = SIBLING.get(t, t)
+            prog = [first, {"op": kind, "h": 0, "t": t}]
+            if kind == "get_loader":
+                prog += [{"op": "load", "h": 0, "t": t, "d": pools.battery(t)[0]},
+                         {"op": "load", "h": 0, "t": sib, "d": pools.battery(sib)[0]},
+                         {"op": "dump", "h": 0, "t": t, "o": pools.dump_battery(t)[0]}]
+            else:
+                prog += [{"op": "dump", "h": 0, "t": t, "o": pools.dump_battery(t)[0]},
+                         {"op": "dump", "h": 0, "t": sib, "o": pools.dump_battery(sib)[0]},
+                         {"op": "load", "h": 0, "t": t, "d": pools.battery(t)[0]}]
+            ks = list(range(1, n + 1))
+            if per_type is not None and len(ks) > per_type:
+                ks = sorted(rng.sample(ks, per_type))
+            for k in ks:
+                tasks.append({"scenario": {"engine": "histsim", "profile": "c11", "seed": f"sweep:{t}:{kind}:{exc}:{k}",
+                                           "handles": [handle], "ops": prog,
+                                           "faults": [{"kind": "interrupt", "op": 0, "k": k, "exc": exc}],
+                                           "norm_cache": 128, "focus": ["sweep"], "sweep": {"type": t, "of": n}}})
+    return tasks
+
+
+C12_SWEEP_BASES = [
+    # (recipe, opts, thread 0 op, thread 1 op)
+    ("plain", ("load", "Node", "node4"), ("load", "Node", "node4")),
+    ("plain", ("load", "Node", "node4"), ("dump", "Node", "o_node3")),
+    ("plain", ("load", "Tree", "tree3"), ("load", "Tree", "tree3")),
+    ("plain", ("load", "RA", "ra3"), ("load", "RB", "rb3")),
+    ("plain", ("load", "LinkedInt", "linked_int"), ("load", "LinkedStr", "linked_str")),
+    ("plain", ("load", "Holder", "holder"), ("load", "Node", "node4")),
+    ("chain_node_children", ("load", "Outer1", "outer"), ("load", "Outer2", "outer")),
+    ("plain", ("load", "Lit01", "i1"), ("load", "LitFT", "bT")),
+    ("plain", ("load", "GLit01", "g_v1"), ("load", "GLitFT", "g_vT")),
+    ("plain", ("load", "Holder", "holder"), ("load", "Unsupported", "unsupported")),
+    ("nm_camel_shared", ("dump", "RB", "o_rb"), ("dump", "RA", "o_ra")),
+    ("plain", ("load", "ULM1LM2", "lm"), ("load", "ULM2LM1", "lm")),
+]
+
+
+C12_INSTR_SWEEP_BASES = {0, 3, 9}
+C12_QUICK_SITE_SWEEP = [(0, 0), (3, 0), (9, 0), (9, 1)]     # (base index, primary thread)
+
+
+def _sweep_base(bi):
+    recipe, a, b = C12_SWEEP_BASES[bi]
+
+    def mk(o):
+        return ({"op": "load", "h": 0, "t": o[1], "d": o[2]} if o[0] == "load"
+                else {"op": "dump", "h": 0, "t": o[1], "o": o[2]})
+    handle = {"base": "Retort", "recipe": recipe,
+              "opts": {"strict_coercion": bi % 2 == 0, "debug_trail": ["ALL", "FIRST", "DISABLE"][bi % 3]}}
+    return {"engine": "schedsim", "cluster": "sweep", "handle": handle, "threads": [[mk(a)], [mk(b)]], "norm_cache": 128}
+
+
+def site_sweep_tasks(eng, args):
+    """Quick tier: stratified single-preemption sweep. For a few base scenarios, one preemption at *every*
+    distinct source line of the retort's lookup/creation/caching code that the primary thread visits
+    (its first visit and one seeded later visit), the other thread then running to completion."""
+    import random
+
+    from .procpool import fork_call
+    rng = random.Random(args.seed ^ 0xC12)
+    tasks = []
+    for bi, t in C12_QUICK_SITE_SWEEP:
+        base = _sweep_base(bi)
+        try:
+            solo = fork_call(eng.compute_ref, (eng._solo_desc({**base, "policy": {"kind": "solo"}}, t),), 120.0, "solo")
+        except Exception:  # noqa: BLE001
+            continue
+        ks = set()
+        for _site, v in sorted(solo["hot"].items()):
+            ks.add(v[0])
+            ks.add(v[rng.randrange(len(v))])
+        for k in sorted(ks):
+            tasks.append({"scenario": {**base, "seed": f"site1:{bi}:{t}:{k}",
+                                       "policy": {"kind": "sweep1", "t": t, "k": k}, "sweep": True}})
+    return tasks
+
+
+def preemption_sweep_tasks(eng, args):
+    """Thorough tier: for each base scenario a complete single-preemption sweep over every step of the
+    primary thread that lies in the retort's lookup/creation/caching code, plus every 10th other step."""
+    from .procpool import fork_call
+    tasks = []
+    chosen = getattr(args, "sweep_bases", None)
+    chosen = None if not chosen else {int(x) for x in chosen.split(",")}
+    for bi, (recipe, a, b) in enumerate(C12_SWEEP_BASES):
+        if chosen is not None and bi not in chosen:
+            continue
+
+        def mk(o):
+            return ({"op": "load", "h": 0, "t": o[1], "d": o[2]} if o[0] == "load"
+                    else {"op": "dump", "h": 0, "t": o[1], "o": o[2]})
+        handle = {"base": "Retort", "recipe": recipe,
+                  "opts": {"strict_coercion": bi % 2 == 0, "debug_trail": ["ALL", "FIRST", "DISABLE"][bi % 3]}}
+        progs = [[mk(a)], [mk(b)]]
+        for t in (0, 1):
+            if t == 1 and a == b:
+                continue
+            base = {"engine": "schedsim", "cluster": "sweep", "handle": handle, "threads": progs, "norm_cache": 128}
+            try:
+                solo = fork_call(eng.compute_ref, (eng._solo_desc({**base, "policy": {"kind": "solo"}}, t),), 120.0, "solo")
+            except Exception:  # noqa: BLE001
+                continue
+            ks = {k for v in solo["hot"].values() for k in v}
+            ks.update(range(1, solo["steps"] + 1, 10))
+            for k in sorted(ks):
+                tasks.append({"scenario": {**base, "seed": f"sweep1:{bi}:{t}:{k}",
+                                           "policy": {"kind": "sweep1", "t": t, "k": k}, "sweep": True}})
+            if bi in C12_INSTR_SWEEP_BASES:
+                # the same at opcode granularity inside the shared-state files: every instruction site, up to 16 visits
+                ibase = {**base, "granularity": "instr"}
+                try:
+                    solo = fork_call(eng.compute_ref, (eng._solo_desc({**ibase, "policy": {"kind": "solo"}}, t),), 120.0, "solo")
+                except Exception:  # noqa: BLE001
+                    continue
+                ks = {k for site, v in solo["hot"].items() if "@" in site for k in v}
+                for k in sorted(ks):
+                    tasks.append({"scenario": {**ibase, "seed": f"sweep1i:{bi}:{t}:{k}",
+                                               "policy": {"kind": "sweep1", "t": t, "k": k}, "sweep": True}})
+    return tasks
 
 
 def dispatch(args):
@@ -66,29 +238,15 @@ def dispatch(args):
         per = driver.run_digests(eng, tasks, args.workers)
         print(f"DIGESTS {selftest.batch_digest(per)} n={len(per)} errors={sum(1 for d in per if str(d).startswith('ERR'))}")
         return 0
-    if what == "C12":
-        from . import schedsim as eng
-        warm_up()
+    if what in ("C09", "C11", "C12", "C20"):
+        eng = {"C12": "schedsim", "C11": "histsim", "C20": "histsim", "C09": "bussim"}[what]
+        import importlib
+        engm = importlib.import_module("vsim." + eng)
+        if what != "C09":
+            warm_up()
         if args.replay:
-            return driver.replay_file(eng, args.replay)
-        n = args.runs or (2400 if args.tier == "quick" else 60000)
-        tasks = driver.seeds_for(args.seed, "C12", n)
-        return driver.run_check(eng, "C12", args.tier, args.seed, tasks, args.workers, time_budget=args.budget)
-    if what in ("C11", "C20"):
-        from . import histsim as eng
-        warm_up()
-        if args.replay:
-            return driver.replay_file(eng, args.replay)
-        profile = what.lower()
-        n = args.runs or ({"C11": 4000, "C20": 5000}[what] if args.tier == "quick" else {"C11": 150000, "C20": 200000}[what])
-        tasks = [{**t, "cfg": {"profile": profile}} for t in driver.seeds_for(args.seed, what, n)]
-        return driver.run_check(eng, what, args.tier, args.seed, tasks, args.workers, time_budget=args.budget)
-    if what == "C09":
-        from . import bussim as eng
-        if args.replay:
-            return driver.replay_file(eng, args.replay)
-        n = args.runs or (20000 if args.tier == "quick" else 1000000)
-        tasks = driver.seeds_for(args.seed, "C09", n)
-        return driver.run_check(eng, "C09", args.tier, args.seed, tasks, args.workers, time_budget=args.budget)
+            return driver.replay_file(engm, args.replay)
+        engm, tasks = _engine_tasks(what, args)
+        return driver.run_check(engm, what, args.tier, args.seed, tasks, args.workers, time_budget=args.budget)
     print(f"unknown check {what!r}")
     return EXIT_HARNESS
